@@ -480,10 +480,11 @@ def _emit(m, stmts, S):
 class TimingRig:
     """The fixed design of FmtTiming (inputs a b s, registers cyc r t) around one program of the catalogue."""
 
-    def __init__(self, prog):
-        from amaranth.hdl import Module, Signal
+    def __init__(self, prog, edge="pos"):
+        from amaranth.hdl import Module, Signal, ClockDomain
         from amaranth.sim import Simulator, Period
         m = Module()
+        m.domains.sync = ClockDomain(clk_edge=edge)      # the active edge of the domain: rising or falling
         S = {"a": Signal(name="a"), "b": Signal(name="b"), "s": Signal(2, name="s"),
              "r": Signal(name="r"), "t": Signal(name="t"), "cyc": Signal(4, name="cyc")}
         m.d.sync += S["cyc"].eq(S["cyc"] + 1)
@@ -583,20 +584,21 @@ def _timing_worker(job):
     res = {"n": 0, "mism": [], "stops": 0, "emits": 0, "sample": None}
     with warnings.catch_warnings():
         warnings.simplefilter("ignore")
-        rig = TimingRig(prog)
-        for leaf in leaves:
+        rigs = {"pos": TimingRig(prog, "pos"), "neg": TimingRig(prog, "neg")}
+        for li, leaf in enumerate(leaves):
             res["n"] += 1
+            edge = "neg" if li % 3 == 2 else "pos"       # a third of the histories in a falling-edge domain
             try:
-                em, stop, stray = rig.run(leaf["ins"])
+                em, stop, stray = rigs[edge].run(leaf["ins"])
                 why = compare_timing(leaf, em, stop, stray)
             except Exception as e:
                 em, stop = None, None
                 why = "simulation raised %s: %s" % (type(e).__name__, e)
-                rig = TimingRig(prog)
+                rigs[edge] = TimingRig(prog, edge)
             res["emits"] += len(leaf["emitted"])
             res["stops"] += 1 if leaf["stop"] else 0
             if why and len(res["mism"]) < 20:
-                res["mism"].append({"program": pid, "ins": [list(x) for x in leaf["ins"]], "why": why,
+                res["mism"].append({"program": pid, "ins": [list(x) for x in leaf["ins"]], "why": why, "clk_edge": edge,
                                     "expected": {"emitted": [list(x) for x in leaf["emitted"]],
                                                  "stop": [leaf["stop"][0], sorted(leaf["stop"][1])] if leaf["stop"] else None},
                                     "actual": {"emitted": em, "stop": stop}})
@@ -661,11 +663,16 @@ def run(ctx):
                         cfg_text=CFG_TIMING.format(maxlen=maxlen, progs=", ".join(map(str, range(1, N_PROGRAMS + 1))),
                                                    mutant=""))),
     ]
-    for mut, inv, shp in (("unsigned", "RoundTrip", "ShapesTiny"), ("group3", "GroupingShape", "ShapesTinyWide"),
-                          ("nozfill", "ZeroPadReads", "ShapesTiny")):
+    fmt_mutants = (("unsigned", "RoundTrip", "ShapesTiny"), ("group3", "GroupingShape", "ShapesTinyWide"),
+                   ("nozfill", "ZeroPadReads", "ShapesTiny"))
+    tim_mutants = (("lastmatch", "EmitExact", "4"), ("late", "StopExact", "8"), ("postedge", "EmitExact", "7"))
+    if not th:          # quick: one seeded error per module (rotating with the seed); thorough: all of them
+        fmt_mutants = (fmt_mutants[ctx.seed % 3],)
+        tim_mutants = (tim_mutants[(ctx.seed + 1) % 3],)
+    for mut, inv, shp in fmt_mutants:
         tlc_jobs.append(("m", dict(module="MC_Fmt", stage="mc/mutant-" + mut, workers=1, expect_violation=inv,
                                    cfg_text=CFG_FMT.format(**dict(tiny, mutant=mut, shapes=shp)))))
-    for mut, inv, pr in (("lastmatch", "EmitExact", "4"), ("late", "StopExact", "8"), ("postedge", "EmitExact", "7")):
+    for mut, inv, pr in tim_mutants:
         tlc_jobs.append(("m", dict(module="FmtTiming", stage="mc/mutant-" + mut, workers=1, expect_violation=inv,
                                    cfg_text=CFG_TIMING.format(maxlen=3, progs=pr, mutant=mut))))
 
@@ -743,8 +750,9 @@ def run(ctx):
         raise MachineryError("vacuous timing replay: histories=%d stops=%d emissions=%d" % (nt, stops, emits))
     for x in tres:
         for m in x["mism"]:
-            ctx.violation({"part": "timing", "program": m["program"], "ins": m["ins"]},
-                          "timing: program %d of FmtTiming, inputs (a,b,s) per edge %r: %s" % (m["program"], m["ins"], m["why"]),
+            ctx.violation({"part": "timing", "program": m["program"], "clk_edge": m["clk_edge"], "ins": m["ins"]},
+                          "timing: program %d of FmtTiming in a %sedge domain, inputs (a,b,s) per edge %r: %s"
+                          % (m["program"], m["clk_edge"], m["ins"], m["why"]),
                           replay=m)
         if x["sample"]:
             ctx.sample(x["sample"])
@@ -756,9 +764,14 @@ def run(ctx):
     ctx.cov["traces_validated_against_impl"] += nt
 
     # ---------------- binding demos ------------------------------------------------------------------
-    _binding_demo(progs)
-    ctx.cov["stages"]["binding"] = {"corrupted_expected_text_reported": True, "corrupted_emission_list_reported": True,
-                                    "shifted_stop_edge_reported": True}
+    try:
+        _binding_demo(progs)
+        ctx.cov["stages"]["binding"] = {"corrupted_expected_text_reported": True, "corrupted_emission_list_reported": True,
+                                        "shifted_stop_edge_reported": True}
+    except _DemoSkipped as e:
+        if not ctx.violations and not ctx.known_hits:
+            raise MachineryError("binding demo: the real code disagrees on a demo case although the replay reported nothing: %s" % e)
+        ctx.cov["stages"]["binding"] = {"skipped": "the real code disagrees on the demo case (reported as violation): %s" % e}
 
     ctx.cov["exhaustive"] = True
     ctx.cov["rule"] = ("text: case = (format specification, shape) built field by field by TLC over the whole stated grammar, "
@@ -773,6 +786,7 @@ def run(ctx):
                "that are not valid UTF-8")
     ctx.assume("specifications that are valid Python but outside Format's supported subset (^ alignment, ',' grouping, 0 or = "
                "with c/s) are expected to be rejected; if accepted, only the text is checked")
+    ctx.assume("timing: one clock domain, rising-edge and falling-edge variants; inputs are set by the testbench before each active edge")
     ctx.assume("timing: sync domain only (the guide warns that combinational Print/Assert may fire on glitches); Prints active "
                "at the very edge at which the simulation stops may or may not be emitted; which of several assertions failing "
                "at the same edge is reported is not specified")
@@ -789,27 +803,33 @@ def _report(ctx, m):
     ctx.violation(key, desc, replay=m)
 
 
+class _DemoSkipped(Exception):
+    pass
+
+
 def _binding_demo(progs):
-    """The comparison must notice a corrupted expectation (so agreement is not vacuous)."""
+    """The comparison must notice a corrupted expectation (so agreement is not vacuous).  The demo cases are members of
+    the explored sets; if the real code already disagrees with the uncorrupted expectation, the main replay has reported
+    it and the demo is skipped (raises _DemoSkipped)."""
     with warnings.catch_warnings():
         warnings.simplefilter("ignore")
         c = {"st": "*>+#09_x", "w": 8, "s": False, "cls": "accept", "why": "", "vals": (0, 200),
              "texts": [(0, py_text("*>+#09_x", 8, False, 0)), (200, py_text("*>+#09_x", 8, False, 200))]}
         st = run_print_batch([c])[0]
         if compare_case(c, st):
-            raise MachineryError("binding demo: the uncorrupted case is not accepted: %r" % (compare_case(c, st),))
+            raise _DemoSkipped("print: %r" % (compare_case(c, st),))
         bad = dict(c, texts=[(0, c["texts"][0][1]), (200, c["texts"][1][1].replace("c8", "c9"))])
         if not compare_case(bad, st):
             raise MachineryError("binding demo: a corrupted expected text was not noticed")
-        a = run_assert_batch([{"st": "05d", "w": 4, "s": True, "raw": 15, "kind": "assume"}])[0]
+        a = run_assert_batch([{"st": "05d", "w": 4, "s": True, "raw": 15, "kind": "assume", "form": "cast"}])[0]
         if a != ("ok", "-0001"):
-            raise MachineryError("binding demo: assert message path gives %r for -1 with 05d" % (a,))
+            raise _DemoSkipped("assume message: %r" % (a,))
         rig = TimingRig(progs[8])          # program 9: Print(3); If(b){Assert(1, a); Print(2)}
         ins = [(1, 0, 0), (1, 1, 0), (0, 1, 0)]
         em, stop, stray = rig.run(ins)
         good = {"ins": ins, "emitted": ((0, 3), (1, 3), (1, 2)), "stop": (2, frozenset({(1, "assert")})), "atstop": frozenset({3})}
         if compare_timing(good, em, stop, stray):
-            raise MachineryError("binding demo: real run of program 9 rejected: " + compare_timing(good, em, stop, stray))
+            raise _DemoSkipped("timing: " + compare_timing(good, em, stop, stray))
         if not compare_timing(dict(good, emitted=((0, 3), (1, 3))), em, stop, stray):
             raise MachineryError("binding demo: a dropped emission was not noticed")
         if not compare_timing(dict(good, stop=(1, good["stop"][1])), em, stop, stray):
@@ -826,7 +846,7 @@ def replay(ctx, rep):
             progs = [tlaval.parse(t)[1] for t in r.printed() if _is_catalogue(t)][0]
             want = tuple(tuple(x) for x in m["ins"])
             leaf = [st for st in tlaval.parse_dump(os.path.join(ctx.tmp, "rp.dump")) if tuple(st["ins"]) == want][0]
-            em, stop, stray = TimingRig(progs[m["program"] - 1]).run(want)
+            em, stop, stray = TimingRig(progs[m["program"] - 1], m.get("clk_edge", "pos")).run(want)
             why = compare_timing(leaf, em, stop, stray)
             print("amaranth: emitted (edge, id, counter) %r, stop %r" % (em, stop))
             print("FmtTiming: emitted %r, stop %r" % (leaf["emitted"], leaf["stop"]))
